@@ -41,6 +41,8 @@ func (g *Ghost) globalFact(c *FnCtx, gl *ssa.Global, term string) string {
 // ---- hooks called by the executor (no-ops unless a ghost discipline is active) ----
 
 func (e *Engine) onStore(c *FnCtx, st *State, l *Loc, v Val, pos token.Pos) {
+	c.guardStore(st, l, pos)
+	c.guardElem(st, l, true, pos)
 	if l.Kind == locField && isMessageStruct(l.RootT) {
 		if derefMsgType(v.T) != nil || c.ty.SortOf(v.T) == sIface || c.ty.SortOf(v.T) == sSlice {
 			c.grafts = append(c.grafts, l.Ref) // an existing (sub-)message/list may have been grafted into this object
@@ -50,11 +52,27 @@ func (e *Engine) onStore(c *FnCtx, st *State, l *Loc, v Val, pos token.Pos) {
 		}
 	}
 }
-func (e *Engine) onLoad(c *FnCtx, st *State, l *Loc, pos token.Pos)               {}
+func (e *Engine) onLoad(c *FnCtx, st *State, l *Loc, pos token.Pos) { c.guardElem(st, l, false, pos) }
 func (e *Engine) onAlloc(c *FnCtx, st *State, ref string, t types.Type)           {}
-func (e *Engine) onMapRead(c *FnCtx, st *State, m string, pos token.Pos)          {}
-func (e *Engine) onMapWrite(c *FnCtx, st *State, m string, pos token.Pos)         {}
-func (e *Engine) onSliceWrite(c *FnCtx, st *State, s Val, cond string, pos token.Pos) {}
+func (e *Engine) onMapRead(c *FnCtx, st *State, m string, pos token.Pos) {
+	if mu, ok := c.guardOf[m]; ok {
+		o := c.obligation(st, "guard", "R.map", "(not (= "+c.lockState(st, mu)+" 0))", pos)
+		o.Desc = "read of a map that is protected by a mutex without holding it"
+	}
+}
+
+func (e *Engine) onMapWrite(c *FnCtx, st *State, m string, pos token.Pos) {
+	if mu, ok := c.guardOf[m]; ok {
+		o := c.obligation(st, "guard", "W.map", "(= "+c.lockState(st, mu)+" (- 1))", pos)
+		o.Desc = "write to a map that is protected by a mutex without holding it for writing"
+	}
+}
+func (e *Engine) onSliceWrite(c *FnCtx, st *State, s Val, cond string, pos token.Pos) {
+	if mu, ok := c.guardOf["(s-arr "+s.E+")"]; ok {
+		o := c.obligation(st, "guard", "W.elem", Implies(cond, Or("(>= (s-arr "+s.E+") |alloc0|)", "(= "+c.lockState(st, mu)+" (- 1))")), pos)
+		o.Desc = "in-place write (append/copy/sort) into a slice that is protected by a mutex without holding it for writing"
+	}
+}
 func (e *Engine) onOpaqueCall(c *FnCtx, st *State, name string, args []Val, pos token.Pos) {}
 func (e *Engine) onCallback(c *FnCtx, st *State, cb *CallbackSpec, fv Val, args []Val, pos token.Pos) {
 	h := c.cbCallsComp()
@@ -89,6 +107,12 @@ func (e *Engine) evalGhostCall(c *FnCtx, env *Env, x *ECall) (Val, bool) {
 		srt := strings.TrimPrefix(x.Fun, "cbres")
 		t := map[string]types.Type{"Iface": types.NewInterfaceType(nil, nil), "Int": tMath, "Bool": tBool}[srt]
 		return Val{T: t, E: "(select " + c.heapGet(env.st, c.comp("ghost$cbres$"+srt+"$"+k, "(Array Int "+srt+")")) + " " + n.E + ")"}, true
+	case "held", "heldW":
+		m := c.eval(env, x.Args[0])
+		if x.Fun == "heldW" {
+			return Val{T: tBool, E: "(= " + c.lockState(env.st, m.E) + " (- 1))"}, true
+		}
+		return Val{T: tBool, E: "(not (= " + c.lockState(env.st, m.E) + " 0))"}, true
 	case "cbcalls":
 		return Val{T: tMath, E: c.heapGet(env.st, c.cbCallsComp())}, true
 	case "cancelled":
@@ -237,6 +261,22 @@ func (e *Engine) preludeInvoke(recvT types.Type, m *types.Func) preludeInv {
 }
 
 func init() {
+	// context.Context: Done() is a fixed channel of the context, Err()/Deadline()/Value() do not touch the heap
+	preludeInvTable["(context.Context).Done"] = func(c *FnCtx, fr *Frame, st *State, recv Val, m *types.Func, args []Val, pos token.Pos) *Val {
+		r := c.uninterp(st, "ctx$Done", []Val{recv}, m.Type().(*types.Signature).Results())
+		return r
+	}
+	ctxFresh := func(c *FnCtx, fr *Frame, st *State, recv Val, m *types.Func, args []Val, pos token.Pos) *Val {
+		resT := m.Type().(*types.Signature).Results()
+		var vs []Val
+		for k := 0; k < resT.Len(); k++ {
+			vs = append(vs, c.fresh("ctx$"+m.Name(), resT.At(k).Type(), st))
+		}
+		return tupleVal(resT, vs)
+	}
+	preludeInvTable["(context.Context).Err"] = ctxFresh
+	preludeInvTable["(context.Context).Deadline"] = ctxFresh
+	preludeInvTable["(context.Context).Value"] = ctxFresh
 	// time.Duration is an int64 count of nanoseconds
 	idArg := func(c *FnCtx, fr *Frame, st *State, fn *ssa.Function, args []Val, pos token.Pos) *Val {
 		return &Val{T: fn.Signature.Results().At(0).Type(), E: args[0].E}
